@@ -155,7 +155,7 @@ SerialClauses(k, r) ==
 
 HasResult(k) ==
   k.op \in {"CheckedAdd", "CheckedRemove", "AndCard", "OrCard", "Intersects", "Equals", "Contains", "IsEmpty",
-            "Card", "Min", "Max", "Rank", "Select", "CardInRange", "IntersectsInterval", "NextValue",
+            "Card", "Min", "Max", "Rank", "Select", "Stats", "String", "CardInRange", "IntersectsInterval", "NextValue",
             "PreviousValue", "NextAbsentValue", "PreviousAbsentValue", "ToArray", "ChecksumEq", "ChecksumRT",
             "Ser", "Load", "WriteFail", "Freeze", "FrozenRT", "LoadLegal", "Ser64", "Load64", "Decode", "MustRead", "ConcLoad"}
 
@@ -180,12 +180,19 @@ ResultOK(U, c, k, r) ==
     [] k.op = "NextAbsentValue" -> LmMatches(NextIn(U, Complement(U, c[k.x]), k.c0, Side(k)), r)
     [] k.op = "PreviousAbsentValue" -> LmMatches(PrevIn(U, Complement(U, c[k.x]), k.c0, Side(k)), r)
     [] k.op = "ToArray" -> r = W(U, c[k.x])                      \* length; the listing itself is `arr`
+    [] k.op = "String" -> r = W(U, c[k.x])                       \* number of printed values; the listing itself is `arr`
+    \* Stats(): per-kind container counts add up to the container count and agree with the raw view, per-kind value
+    \* counts add up to the cardinality, HasRunCompression iff some run chunk
+    [] k.op = "Stats" -> /\ r.card = W(U, c[k.x]) /\ r.values = W(U, c[k.x])
+                         /\ r.containers = r.kinds[1] + r.kinds[2] + r.kinds[3]
+                         /\ r.kinds = r.viewkinds
+                         /\ r.hasrun = (r.kinds[3] > 0)
     [] k.op = "ChecksumEq" -> TRUE   \* Checksum depends on the representation: C03 promises stability under Clone and round trip only (ChecksumRT)
     [] k.op = "ChecksumRT" -> r = TRUE
     [] OTHER -> SerialClauses(k, r) = {}
 
 \* Calls that also return a listing of a set (decoded independently by the harness) name the set here.
-HasListing(k) == k.op \in {"ToArray", "DenseRT", "BitSetRT", "Ser", "Freeze"}
+HasListing(k) == k.op \in {"ToArray", "DenseRT", "BitSetRT", "Ser", "Freeze", "String"}
 ListingOf(U, c, k) == c[k.x]
 
 ---------------------------------------------------------------------------
